@@ -91,7 +91,7 @@ def run_fit(ctx, name, nr, nc, opt_every=0, **kw):
         ctx.nontriv(('f', name) + k)
     ctx.traces += summ['pairs']
     ctx.extra.setdefault('fit_runs', {})[name] = summ
-    if summ['pairs'] == 0 or summ['exact_directions_checked'] == 0:
+    if summ['pairs'] == 0 or (summ['exact_directions_checked'] == 0 and '1' in kw.get('rset', 'R12')):
         raise MachineryError(f'{name}: vacuous (no competitor pairs or no exact direction compared)')
     return summ
 
